@@ -584,7 +584,7 @@ def _spin_values(max_two_j):
        env="tf", kind="G", cost=5,
        bound="all (ja,jb,jc) in {0,1/2,..,5/2}^3 (int / float spelling as the loader passes them) x parity-even / parity-odd / parity-violating; "
              "quick: the 9 further parity/C-parity variants, float-spelled integer spins and helicity_inner_full=True for spins <= 3/2, thorough: for all",
-       assumes=["real TensorFlow process only because tf_pwa.amp.core cannot be imported under the shim (tf.autograph.experimental.do_not_convert); "
+       assumes=["runs in the real-TensorFlow worker (when written, tf_pwa.amp.core did not import under the shim; it does now); "
                 "the methods under contract are pure Python/NumPy/SymPy",
                 "isometry of the LS -> helicity map (orthogonality of Clebsch-Gordan coefficients) is used only as the certificate for the rank"])
 def helicity_cg_matrix(ctx):
@@ -661,7 +661,7 @@ def helicity_cg_matrix(ctx):
        env="tf", kind="G", cost=3,
        bound="all (ja,jb,jc) in {0,1/2,..,5/2}^3 x parity-even / parity-odd / parity-violating, built one after the other with the SAME three particle "
              "names (A, B, C), compared with a twin built under names never used before",
-       assumes=["real TensorFlow process only because tf_pwa.amp.core cannot be imported under the shim"])
+       assumes=["runs in the real-TensorFlow worker (historical choice; tf_pwa.amp.core also imports under the shim now)"])
 def name_reuse(ctx):
     import numpy as np
 
@@ -716,7 +716,7 @@ def name_reuse(ctx):
        env="tf", kind="G", cost=1,
        bound="all (ja,jb,jc) in {0,1/2,..,5/2}^3 (thorough: up to 4) x parity-even / parity-odd / parity-violating; l_list: every single l in 0..ja+jb+jc+1, "
              "3 seeded subsets, [] ; ls_list: 4 seeded ordered sub-lists of the full list, and 3 seeded lists containing pairs outside the full list",
-       assumes=["real TensorFlow process only because tf_pwa.amp.core cannot be imported under the shim"])
+       assumes=["runs in the real-TensorFlow worker (historical choice; tf_pwa.amp.core also imports under the shim now)"])
 def helicity_ls_restrictions(ctx):
     particle = ctx.mod("particle")
     core = ctx.mod("amp.core")
